@@ -20,7 +20,8 @@ package cbor
 //@   ensures result == nil ==> accepted(e.w) == old(accepted(e.w)) + 1 + nfOf(n)
 //@   ensures result == nil ==> content(e.w) == cat(old(content(e.w)), cborHead(byte(t), n))
 //@   ensures accepted(e.w) >= old(accepted(e.w)) && accepted(e.w) <= old(accepted(e.w)) + 1 + nfOf(n)
-//@   assigns accepted(e.w), failed(e.w), content(e.w)
+//@   ensures[skew] accepted(e.w) - wrapped(e.w) == old(accepted(e.w) - wrapped(e.w))
+//@   assigns accepted(e.w), failed(e.w), content(e.w), wrapped(e.w)
 //@   loop 0:
 //@     invariant len(encoded) == 1 + nfollow && nfollow == nfOf(old(n)) && -1 <= i && i < nfollow
 //@     invariant encoded[0] == (byte(t) | aiOf(old(n)))
@@ -35,7 +36,8 @@ package cbor
 //@   ensures result == nil ==> content(e.w) == cat(old(content(e.w)), cborHead(0, n))
 //@   ensures result == nil ==> accepted(e.w) == old(accepted(e.w)) + 1 + nfOf(n)
 //@   ensures accepted(e.w) >= old(accepted(e.w)) && accepted(e.w) <= old(accepted(e.w)) + 1 + nfOf(n)
-//@   assigns accepted(e.w), failed(e.w), content(e.w)
+//@   ensures[skew] accepted(e.w) - wrapped(e.w) == old(accepted(e.w) - wrapped(e.w))
+//@   assigns accepted(e.w), failed(e.w), content(e.w), wrapped(e.w)
 
 //@ func (*Encoder).EncodeInt
 //@   props C11 C19
@@ -43,7 +45,8 @@ package cbor
 //@   ensures failed(e.w) == (result != nil)
 //@   ensures result == nil && n >= 0 ==> content(e.w) == cat(old(content(e.w)), cborHead(0, uint64(n)))
 //@   ensures result == nil && n < 0 ==> content(e.w) == cat(old(content(e.w)), cborHead(32, uint64(-1 - n)))
-//@   assigns accepted(e.w), failed(e.w), content(e.w)
+//@   ensures[skew] accepted(e.w) - wrapped(e.w) == old(accepted(e.w) - wrapped(e.w))
+//@   assigns accepted(e.w), failed(e.w), content(e.w), wrapped(e.w)
 
 //@ func (*Encoder).EncodeArrayHeader
 //@   props C11 C19
@@ -52,7 +55,8 @@ package cbor
 //@   ensures result == nil ==> content(e.w) == cat(old(content(e.w)), cborHead(128, uint64(n)))
 //@   ensures result == nil ==> accepted(e.w) == old(accepted(e.w)) + 1 + nfOf(uint64(n))
 //@   ensures accepted(e.w) >= old(accepted(e.w)) && accepted(e.w) <= old(accepted(e.w)) + 1 + nfOf(uint64(n))
-//@   assigns accepted(e.w), failed(e.w), content(e.w)
+//@   ensures[skew] accepted(e.w) - wrapped(e.w) == old(accepted(e.w) - wrapped(e.w))
+//@   assigns accepted(e.w), failed(e.w), content(e.w), wrapped(e.w)
 
 //@ func (*Encoder).encodeMapHeader
 //@   props C11 C19
@@ -61,7 +65,8 @@ package cbor
 //@   ensures result == nil ==> content(e.w) == cat(old(content(e.w)), cborHead(160, uint64(n)))
 //@   ensures result == nil ==> accepted(e.w) == old(accepted(e.w)) + 1 + nfOf(uint64(n))
 //@   ensures accepted(e.w) >= old(accepted(e.w)) && accepted(e.w) <= old(accepted(e.w)) + 1 + nfOf(uint64(n))
-//@   assigns accepted(e.w), failed(e.w), content(e.w)
+//@   ensures[skew] accepted(e.w) - wrapped(e.w) == old(accepted(e.w) - wrapped(e.w))
+//@   assigns accepted(e.w), failed(e.w), content(e.w), wrapped(e.w)
 
 //@ func (*Encoder).encodeBytes
 //@   props C11 C19
@@ -70,7 +75,8 @@ package cbor
 //@   ensures result == nil ==> content(e.w) == cat(cat(old(content(e.w)), cborHead(byte(t), uint64(len(bs)))), bytes(bs))
 //@   ensures result == nil ==> accepted(e.w) == old(accepted(e.w)) + 1 + nfOf(uint64(len(bs))) + len(bs)
 //@   ensures accepted(e.w) >= old(accepted(e.w)) && accepted(e.w) <= old(accepted(e.w)) + 1 + nfOf(uint64(len(bs))) + len(bs)
-//@   assigns accepted(e.w), failed(e.w), content(e.w)
+//@   ensures[skew] accepted(e.w) - wrapped(e.w) == old(accepted(e.w) - wrapped(e.w))
+//@   assigns accepted(e.w), failed(e.w), content(e.w), wrapped(e.w)
 
 //@ func (*Encoder).EncodeByteString
 //@   props C11 C19
@@ -79,7 +85,8 @@ package cbor
 //@   ensures result == nil ==> content(e.w) == cat(cat(old(content(e.w)), cborHead(64, uint64(len(bs)))), bytes(bs))
 //@   ensures result == nil ==> accepted(e.w) == old(accepted(e.w)) + 1 + nfOf(uint64(len(bs))) + len(bs)
 //@   ensures accepted(e.w) >= old(accepted(e.w)) && accepted(e.w) <= old(accepted(e.w)) + 1 + nfOf(uint64(len(bs))) + len(bs)
-//@   assigns accepted(e.w), failed(e.w), content(e.w)
+//@   ensures[skew] accepted(e.w) - wrapped(e.w) == old(accepted(e.w) - wrapped(e.w))
+//@   assigns accepted(e.w), failed(e.w), content(e.w), wrapped(e.w)
 
 //@ func (*Encoder).EncodeTextString
 //@   props C11 C19
@@ -90,7 +97,8 @@ package cbor
 //@   ensures result == nil ==> content(e.w) == cat(cat(old(content(e.w)), cborHead(96, uint64(len(s)))), bytes(s))
 //@   ensures result == nil ==> accepted(e.w) == old(accepted(e.w)) + 1 + nfOf(uint64(len(s))) + len(s)
 //@   ensures accepted(e.w) >= old(accepted(e.w)) && accepted(e.w) <= old(accepted(e.w)) + 1 + nfOf(uint64(len(s))) + len(s)
-//@   assigns accepted(e.w), failed(e.w), content(e.w)
+//@   ensures[skew] accepted(e.w) - wrapped(e.w) == old(accepted(e.w) - wrapped(e.w))
+//@   assigns accepted(e.w), failed(e.w), content(e.w), wrapped(e.w)
 
 //@ func (*Encoder).EncodeBool
 //@   arith bv
@@ -100,7 +108,8 @@ package cbor
 //@   ensures result == nil ==> content(e.w) == cat(old(content(e.w)), cborHead(224, b ? 21 : 20))
 //@   ensures result == nil ==> accepted(e.w) == old(accepted(e.w)) + 1
 //@   ensures accepted(e.w) >= old(accepted(e.w)) && accepted(e.w) <= old(accepted(e.w)) + 1
-//@   assigns accepted(e.w), failed(e.w), content(e.w)
+//@   ensures[skew] accepted(e.w) - wrapped(e.w) == old(accepted(e.w) - wrapped(e.w))
+//@   assigns accepted(e.w), failed(e.w), content(e.w), wrapped(e.w)
 
 // ---- decoder (C12): reads are specified over the reader's ghost stream
 // (sdata, spos, send), see /verif/govc/stdlib/io.spec.
